@@ -2,5 +2,4 @@ SPECIFICATION Spec
 CONSTANTS Stations = {0, 2, 3} HSA = 4 G = 1 Base = 2 S = 4 JoinBudget = 1 LeaveBudget = 1 DropBudget = 1 ColdTogether = TRUE
   FixF2 = TRUE FixF3 = TRUE FixF14 = TRUE
 INVARIANT NoBad
-PROPERTY EventuallyStable
 CHECK_DEADLOCK FALSE
